@@ -88,10 +88,12 @@ def _setitem_one(ck: Check, repo: Repo, fn: Fn) -> None:
           construct="tree stores in __setitem__")
     # loop test: idx >= 1  (or idx > 0)
     c = loop.ast
-    ok = isinstance(c, ast.Compare) and len(c.ops) == 1 and isinstance(c.left, ast.Name) and (
-        (isinstance(c.ops[0], ast.GtE) and const_value(c.comparators[0]) == 1) or (isinstance(c.ops[0], ast.Gt) and const_value(c.comparators[0]) == 0))
+    # (canonical orientation after loading: `idx >= 1` is seen as `1 <= idx`; both spellings are accepted)
+    ok = isinstance(c, ast.Compare) and len(c.ops) == 1 and (
+        (isinstance(c.left, ast.Name) and ((isinstance(c.ops[0], ast.GtE) and const_value(c.comparators[0]) == 1) or (isinstance(c.ops[0], ast.Gt) and const_value(c.comparators[0]) == 0)))
+        or (isinstance(c.comparators[0], ast.Name) and ((isinstance(c.ops[0], ast.LtE) and const_value(c.left) == 1) or (isinstance(c.ops[0], ast.Lt) and const_value(c.left) == 0))))
     ck.ob("C11.1", fn, c, ok, "the ancestor loop runs until the root (node 1) has been recomputed", detail=ast.unparse(c))
-    var = c.left.id if ok else "idx"
+    var = (c.left.id if isinstance(c.left, ast.Name) else c.comparators[0].id) if ok else "idx"
     for s in inner:
         cur = tb.term(ast.Name(id=var, ctx=ast.Load()), s)
         t = tb.term(s.ast.targets[0].slice, s)
